@@ -189,6 +189,8 @@ def run(ctx):
                         t15 = A.qtype(d15) or ""
                         if re.match(r"^\s*(static\s+)?const\b", t15) or t15.startswith("const ") or " const" in t15.split("*")[-1] or d15.get("constexpr"):
                             continue
+                        if t15.replace("static ", "").strip() in ("bool", "_Bool", "std::once_flag", "std::atomic<bool>", "std::atomic_bool"):
+                            continue             # a once-only flag (a warning printed once) carries no value of the state
                         bad15.append((q15, d15))
     ctx.require(n15 >= 8, "R12.15: only %d functions of the save / load pipeline found" % n15)
     ctx.ob("R12.15", "save / load pipeline: variables that outlive a call", not bad15, site=A.where(bad15[0][1]) if bad15 else A.where(us.function("save_to_file")),
